@@ -26,6 +26,7 @@ EXPLANATION = (
 
 
 def run(ctx, res):
+    res.require_min("L-REFUSE-WAKES", 1)
     prog = ctx.program()
     la = LockAnalysis(prog)
     res.extra["explanation"] = EXPLANATION
@@ -56,6 +57,7 @@ def run(ctx, res):
                                  sorted(map(LR.key_str, missing)))
         LR.rule_l_recheck(la, res, site)
         LR.rule_l_recheck_nested(la, res, site)
+        LR.rule_refusal_ends_wait(la, res, site)
         # the predicate is what the whole loop nest around the wait evaluates
         site = dict(site, reads=LR.full_reads(site))
         LR.rule_l_cv(la, res, site)
